@@ -347,6 +347,110 @@ def oracle_c11(res, lf=None):
     return {'failures': fails, 'distinct': distinct, 'samples': samples, 'stats': stats}
 
 
+RULES.update({
+    'c07': 'random schemas x (valid | re-encoded with sub-messages split over 2-3 occurrences, several oneof members in '
+           'sequence, stale scalars, empty packed records | mutated) inputs, parsed with a recording allocator (every block '
+           'given an id, frees checked against live blocks, system malloc/free inside protobuf-c.c counted) and freed; also '
+           'parsed with no allocator (system allocator counted); non-trivial = run with >= 2 allocations; distinct by trace hash',
+    'c08': 'for each input of a structurally diverse set (as C07): refuse only the k-th request for every k, the k-th and all '
+           'later ones for every k, and random subsets; outcome, leak and double-free accounting checked per (input, mask); '
+           'non-trivial = run in which a refusal was actually delivered; distinct by (input, mask) hash',
+})
+
+
+def trace_balance(tr):
+    """(ok, reason) for a trace string like ' a0:24 a1:8 f1 r16 f0'"""
+    live = set()
+    for ev in tr.split():
+        if ev[0] == 'a':
+            live.add(ev[1:].split(':')[0])
+        elif ev[0] == 'f':
+            if ev[1:] == '?' or ev[1:] not in live:
+                return False, 'block %s freed twice or never allocated' % ev[1:]
+            live.discard(ev[1:])
+    if live:
+        return False, 'blocks never returned: %s' % sorted(live)[:5]
+    return True, ''
+
+
+def oracle_c07(res, lf=None):
+    fails, distinct, samples = [], [], []
+    stats = {'runs': 0, 'accepted': 0, 'rejected': 0, 'allocs': 0, 'system_allocator_runs': 0}
+    for i, l, out in iter_ops(res, lf):
+        t = l.split()
+        if t[0] not in ('unpackf', 'unpacksys'):
+            continue
+        if out.startswith('CRASH') or out == '<missing>':
+            fails.append((i, 'crash / sanitizer report (%s)' % out))
+            continue
+        d = kv(out)
+        if t[0] == 'unpacksys':
+            stats['system_allocator_runs'] += 1
+            if d.get('sysmalloc') != d.get('sysfree'):
+                fails.append((i, 'system allocator: %s blocks obtained, %s returned' % (d.get('sysmalloc'), d.get('sysfree'))))
+            if d.get('custom_calls') != '0':
+                fails.append((i, 'custom allocator used although none was supplied'))
+            continue
+        stats['runs'] += 1
+        stats['accepted' if out.startswith('ok') else 'rejected'] += 1
+        tr = out.split('trace=')[1] if 'trace=' in out else ''
+        tr = tr.replace('ERASE-MISMATCH', '')
+        ok, why = trace_balance(tr)
+        stats['allocs'] += tr.count(' a')
+        if d.get('live') != '0' or d.get('foreign') != '0':
+            fails.append((i, 'after parse%s: %s blocks outstanding, %s foreign frees' % ('+free' if out.startswith('ok') else ' failure', d.get('live'), d.get('foreign'))))
+        elif not ok:
+            fails.append((i, why))
+        elif d.get('sysmalloc') != '0':
+            fails.append((i, 'system malloc/free used although a custom allocator was supplied'))
+        if tr.count(' a') >= 2:
+            distinct.append(h(tr))
+        if len(samples) < 3 and len(l) < 200:
+            samples.append({'op': l, 'impl': out[:300]})
+    return {'failures': fails, 'distinct': distinct, 'samples': samples, 'stats': stats}
+
+
+def oracle_c08(res, lf=None):
+    fails, distinct, samples = [], [], []
+    stats = {'runs': 0, 'refusal_delivered': 0, 'failed_cleanly': 0, 'refusals_by_size': {}}
+    for i, l, out in iter_ops(res, lf):
+        t = l.split()
+        if t[0] == 'append':
+            r = oracle_c18({'lines': [l], 'impl': [out]})
+            fails += [(i, w) for _, w in r['failures']]
+            continue
+        if t[0] != 'unpackf':
+            continue
+        stats['runs'] += 1
+        if out.startswith('CRASH') or out == '<missing>':
+            fails.append((i, 'crash under allocation failure (%s)' % out))
+            continue
+        d = kv(out)
+        tr = out.split('trace=')[1] if 'trace=' in out else ''
+        ok, why = trace_balance(tr)
+        refused = int(d.get('refused', '0'))
+        if refused > 0:
+            stats['refusal_delivered'] += 1
+            for ev in tr.split():
+                if ev[0] == 'r':
+                    stats['refusals_by_size'][ev[1:]] = stats['refusals_by_size'].get(ev[1:], 0) + 1
+            if out.startswith('ok'):
+                fails.append((i, 'parse reported success although an allocation request was refused'))
+            else:
+                stats['failed_cleanly'] += 1
+            distinct.append(h(l))
+        if d.get('live') != '0' or d.get('foreign') != '0':
+            fails.append((i, 'leak or foreign free under allocation failure: live=%s foreign=%s' % (d.get('live'), d.get('foreign'))))
+        elif not ok:
+            fails.append((i, why))
+        if len(samples) < 3 and len(l) < 200 and refused:
+            samples.append({'op': l, 'impl': out[:300]})
+    # keep the size histogram small
+    top = sorted(stats['refusals_by_size'].items(), key=lambda kv_: -kv_[1])[:12]
+    stats['refusals_by_size'] = dict(top)
+    return {'failures': fails, 'distinct': distinct, 'samples': samples, 'stats': stats}
+
+
 def match_known(known, pid, what, payload):
     """an OPEN finding of known_findings.json that matches this failure, else None"""
     for k in known.get('findings', []):
